@@ -4,7 +4,7 @@ from .common import generic_run, FinalDbMonitor, launched_instances
 PID = 'C26'
 ENGINE = 'E1'
 LEVEL = 'exploration'
-RULE = ('One case = generated workflow run to its end under a seeded schedule; after every main-loop iteration the pool dictionaries, the cached task list and the task_pool table (read through a separate read-only connection) are compared. Distinct = distinct (program, schedule digest); non-trivial = the pool changed membership at least 4 times.')
+RULE = ('One case = generated workflow run to its end under a seeded schedule, in half of the cases with a seeded operator-command mix (hold/release, set, trigger incl. --flow=new, remove incl. --flow=N, stop --flow=N, pause/resume, reload, stop point) injected at main-loop interception points; after every main-loop iteration the pool dictionaries, the cached task list and the task_pool table (read through a separate read-only connection) are compared. Distinct = distinct (program, schedule digest); non-trivial = the pool changed membership at least 4 times.')
 ASSUMPTIONS = [
     'jobs, polls, submissions, message transport and the clock are simulated',
     'reference model / invariants cover the generated workflow sub-language',
@@ -13,13 +13,61 @@ TIERS = {
     'quick': {'n': 800, 'budget_s': 420, 'chunk': 10},
     'thorough': {'n': 16000, 'budget_s': 3000, 'chunk': 25},
 }
-EXPECTED_PROBES = ['removed_complete', 'pooled_on_demand']
+EXPECTED_PROBES = ['removed_complete', 'pooled_on_demand', 'with_commands']
 
 
 def make_params(seed, tier):
     return {'seed': seed}
 
+def run_with_commands(params):
+    """Same comparison after every iteration, with an operator-command mix
+    (hold/release, set, trigger incl. --flow=new, remove incl. --flow=N,
+    stop --flow=N, pause/resume, reload, stop point)."""
+    import random
+    from ..core import derive_seed
+    from ..e1 import Case, CommandDriver, run_case
+    from ..monitors import InvariantMonitor
+    from ..refmodel import Model
+    from .c25 import gen_commands
+    from .common import (LaunchMonitor, RATES_NONE, RATES_SCHED, base_stats,
+                         sample_of, swarm_gkw, viol_dicts)
+    seed = params['seed']
+    rng = random.Random(derive_seed(seed, 'c26cmd'))
+    case = Case(seed, knobs={'span': (2, 5), 'n_tasks': (2, 6)},
+                rates=[RATES_NONE, RATES_SCHED][(seed // 2) % 2],
+                policy='any', plan_kw={'p_fail': 0.3}, gkw=swarm_gkw(rng))
+    case.choices = params.get('choices')
+    case.build()
+    cmds = params.get('cmds') or gen_commands(
+        rng, case.prog, Model(case.prog, None), 25)
+    if not params.get('cmds') and rng.random() < 0.35:
+        # flow commands change flow numbers in place: make sure they occur
+        cmds = list(cmds) + [
+            {'iter': rng.randint(1, 12), 'slot': rng.randint(0, 1),
+             'name': 'stop', 'kwargs': {'mode': None,
+                                        'flow_num': rng.randint(1, 2)}}]
+    res = run_case(case, monitors=[
+        LaunchMonitor(check_prereqs=False), InvariantMonitor(commands=True),
+        CommandDriver([dict(c) for c in cmds])])
+    if res.error:
+        return {'error': res.error, 'violations': [], 'stats': {}}
+    res.sim.probe('with_commands')
+    nontriv = None
+    pr = res.sim.probes
+    if getattr(res, 'commands_done', None) and (
+            pr.get('removed_complete', 0) + pr.get('pooled_on_demand', 0) >= 2):
+        nontriv = [res.prog.render(), [(c.get('iter'), c['name'],
+                                        str(c['kwargs'])) for c in cmds],
+                   res.sim.hexdigest()]
+    return {'violations': viol_dicts(res, PID, {}),
+            'stats': base_stats(res, nontriv),
+            'sample': sample_of(res, {'commands': [
+                (c.get('iter'), c['name'], str(c['kwargs'])) for c in cmds]})}
+
+
 def run(params):
+    if params['seed'] % 2:
+        return run_with_commands(params)
     r = generic_run(PID, params, policy='any', plan_kw={'p_fail': 0.3})
     st = r.get('stats') or {}
     pr = st.get('probes', {})
